@@ -61,9 +61,14 @@ func c07Run(index int, raw json.RawMessage) lab.WorkerResult {
 		return lab.WorkerResult{Skipped: err.Error()}
 	}
 	var panicReached int32
+	var idMu sync.Mutex
+	connIDs := map[int]int{} // client tag -> ConnectionID its handlers reported
 	h := func(label string) gldap.HandlerFunc {
 		return func(w *gldap.ResponseWriter, r *gldap.Request) {
 			kind, id, _ := gldap.VerifMessageInfo(r)
+			idMu.Lock()
+			connIDs[tagOf(id)] = r.ConnectionID()
+			idMu.Unlock()
 			if tagOf(id) == c07FaultTag {
 				switch s.Fault {
 				case "handler-panic":
@@ -270,7 +275,7 @@ func c07Run(index int, raw json.RawMessage) lab.WorkerResult {
 				defer cl.Close()
 			}
 		}
-	case "emfile":
+	case "emfile", "emfile-ids":
 		// lower the descriptor limit so that accept() fails with EMFILE
 		var lim syscall.Rlimit
 		if err := syscall.Getrlimit(syscall.RLIMIT_NOFILE, &lim); err != nil {
@@ -292,6 +297,9 @@ func c07Run(index int, raw json.RawMessage) lab.WorkerResult {
 				break
 			}
 			conns = append(conns, c)
+		}
+		if s.Fault == "emfile-ids" {
+			time.Sleep(120 * time.Millisecond) // many failed accepts
 		}
 		time.Sleep(30 * time.Millisecond) // accept keeps failing during this window
 		for _, c := range conns {
@@ -316,6 +324,49 @@ func c07Run(index int, raw json.RawMessage) lab.WorkerResult {
 	}
 	if !served {
 		return fail("bystander-starved:"+s.Fault, "%s: bystander connections stopped being served after the fault", desc)
+	}
+	if s.Fault == "emfile-ids" {
+		// connection IDs stay unique and positive across the accept failures
+		var later []*lab.Client
+		defer func() {
+			for _, c := range later {
+				c.Close()
+			}
+		}()
+		for k := 0; k < 40; k++ {
+			c, err := lab.Dial(srv.Addr)
+			if err != nil {
+				return fail("new-connection-refused:"+s.Fault, "%s: new connection #%d after the fault fails: %v", desc, k, err)
+			}
+			later = append(later, c)
+			id := int64(800+k)*tagStride + 1
+			_ = c.Send(simpleReq("search", id).Bytes())
+			if m, err := c.Next(10 * time.Second); err != nil || m.ID != id {
+				if srv.RunReturned() {
+					return fail("run-returned:"+s.Fault, "%s: Server.Run returned (%v) when connection #%d after the fault arrived", desc, <-srv.RunErr, k)
+				}
+				return fail("new-connection-not-served:"+s.Fault, "%s: new connection #%d after the fault is not served: %v", desc, k, err)
+			}
+		}
+		idMu.Lock()
+		seen := map[int]int{}
+		var problem string
+		for tag, cid := range connIDs {
+			if tag == c07FaultTag {
+				continue
+			}
+			if cid <= 0 {
+				problem = fmt.Sprintf("connection with client tag %d reports the non-positive ConnectionID %d", tag, cid)
+			}
+			if prev, dup := seen[cid]; dup {
+				problem = fmt.Sprintf("ConnectionID %d is reported by the live connections with client tags %d and %d", cid, prev, tag)
+			}
+			seen[cid] = tag
+		}
+		idMu.Unlock()
+		if problem != "" {
+			return fail("connection-id-reused-after-accept-error", "%s: %s (IDs by tag: %v)", desc, problem, connIDs)
+		}
 	}
 	ncl, err := lab.Dial(srv.Addr)
 	if err != nil {
